@@ -5,7 +5,9 @@ D(k) == [op |-> "deq", key |-> k]
 C == [op |-> "close"]
 ProgsDefect == << <<E("a", 0)>>, <<E("b", 0)>> >>
 ProgsSmall == << <<E("a", 0), D("b")>>, <<E("b", 6), E("a", 2)>>, <<C>> >>
-ProgsBig == << <<E("a", 0), D("b"), E("c", 5)>>, <<E("b", 6), E("a", 2), D("a")>>, <<E("b", 0), C>> >>
+\* measured: 73.0M generated / 20.3M distinct states, depth 52, 11 min with 8 workers on a loaded machine (the former three-op-per-client
+\* programs did not finish in 40 min after the model gained cop/head)
+ProgsBig == << <<E("a", 0), D("b"), E("c", 5)>>, <<E("b", 6), E("a", 2)>>, <<C>> >>
 
 ProgsLive == << <<E("a", 0), E("b", 6)>>, <<E("a", 2), D("b")>>, <<C>> >>
 ProgsLiveSmall == << <<E("a", 0)>>, <<E("a", 2), D("a")>>, <<C>> >>
